@@ -93,7 +93,7 @@ func genC10Cleanup(dt *drv.T, depth int) *Stmt {
 func (c10) Gen(dt *drv.T, c *Ctx) any {
 	cs := &C10Case{Case: &CheckCase{}}
 	cs.Mode = pick(dt, "mode", "check", "check", "check", "rerun", "fuzz", "example")
-	gc := GenCfg{Depth: c.Pick(1, 2), SmallInts: true, RejectHeavy: chance(dt, "rej", 40), Custom: true, CustomStmts: true, CustomNonFatal: true, CleanupBeforeSkip: true}
+	gc := GenCfg{LenCap: 8, Depth: c.Pick(1, 2), SmallInts: true, RejectHeavy: chance(dt, "rej", 40), Custom: true, CustomStmts: true, CustomNonFatal: true, CleanupBeforeSkip: true}
 	if cs.Mode == "example" {
 		cs.ExGen = genCustomSpec(dt, gc)
 		if chance(dt, "wrapfilter", 40) {
